@@ -46,7 +46,9 @@ func verifCompletion(outcome int) {
 	case 0:
 		end = verif.ClockReading(1)
 	case 2:
-		end = verif.ClockReading(2)
+		// the last reading of the clock is the end time handed to updateLimit (a dropped sample that
+		// is folded into the window stamps the window first, which is an earlier reading)
+		end = verif.ClockReading(verif.ClockReadings())
 	default:
 		end = start
 	}
